@@ -31,12 +31,14 @@ type FetchOptions struct {
 
 func toMultihash(ctx context.Context, services coreiface.CoreAPI, log *IPFSLog) (cid.Cid, error) {
 	verifhook.Yield("tomultihash.start", log)
-	if log.heads.Len() == 0 {
+	// ToJSONLog reads the heads under the log's lock; look at the log only once
+	jsonLog := log.ToJSONLog()
+	if len(jsonLog.Heads) == 0 {
 		return cid.Undef, errmsg.ErrEmptyLogSerialization
 	}
 
 	verifhook.Yield("tomultihash.before-write", log)
-	return log.io.Write(ctx, services, log.ToJSONLog(), nil)
+	return log.io.Write(ctx, services, jsonLog, nil)
 }
 
 func fromMultihash(ctx context.Context, services coreiface.CoreAPI, hash cid.Cid, options *FetchOptions, io iface.IO) (*Snapshot, error) {
